@@ -1,17 +1,24 @@
 #!/bin/bash
-# tools/seed_eval.sh <seed-id e.g. C20-1> <seed worktree> <checks comma-separated>
-# Confirms an independently produced seeded change and runs our checks against it, all in the
-# scratch verification worktree /tmp/wt-verify (never /repo):
+# tools/seed_eval.sh <seed-id e.g. C20-1> <seed worktree | -> <checks comma-separated> [verify-worktree]
+# Confirms an independently produced seeded change and runs our checks against it, all in a
+# scratch verification worktree (default /tmp/wt-verify; never /repo):
 #   1. patch applies to /repo HEAD; 2. baseline suite with the patch == 2389 pass / 8 known fails;
 #   3. demo fails with the patch and passes without; 4. each named check (quick) vs the patched tree.
-# Results: /verif/seeded/<id>/{patch.diff,demo/,meta.json,verification.json,logs}
+# With "-" as seed worktree the material already stored in /verif/seeded/<id>/ is re-evaluated.
+# Results: /verif/seeded/<id>/{patch.diff,demo_tree/,meta.json,verification.txt,*.log}
 set -u
-ID=$1; SW=$2; CHECKS=${3:-}
-OUT=/verif/seeded/$ID; V=/tmp/wt-verify
-mkdir -p $OUT/demo
-cp $SW/SEED/patch.diff $OUT/patch.diff
-cp $SW/SEED/meta.json $OUT/meta.json 2>/dev/null
-cp -r $SW/SEED/demo/. $OUT/demo/ 2>/dev/null
+ID=$1; SW=$2; CHECKS=${3:-}; V=${4:-/tmp/wt-verify}
+OUT=/verif/seeded/$ID
+mkdir -p $OUT/demo_tree
+if [ "$SW" != "-" ]; then
+  cp $SW/SEED/patch.diff $OUT/patch.diff
+  cp $SW/SEED/meta.json $OUT/meta.json 2>/dev/null
+  # demo files = untracked files of the seed worktree outside SEED/, target/ and our own scratch dirs
+  (cd $SW && git status --porcelain --untracked-files=all | awk '$1=="??"{print $2}' | grep -v '^SEED/' | grep -v '^target/' | grep -v '^\.verif' ) > $OUT/demo_files.txt
+  while read -r f; do [ -n "$f" ] && mkdir -p $OUT/demo_tree/$(dirname $f) && cp $SW/$f $OUT/demo_tree/$f; done < $OUT/demo_files.txt
+  echo "$SW" > $OUT/seed_worktree.txt
+fi
+ORIG_SW=$(cat $OUT/seed_worktree.txt 2>/dev/null || echo /nonexistent)
 HEAD=$(git -C /repo rev-parse HEAD)
 [ -d $V ] || git -C /repo worktree add --detach $V $HEAD >/dev/null 2>&1
 git -C $V checkout -q -- . ; git -C $V clean -fdq -e target -e .verif-harness -e .verif-target -e .verif-out; git -C $V checkout -q --detach $HEAD
@@ -20,33 +27,38 @@ res() { echo "$1" >> $OUT/verification.txt; }
 res "repo_head=$HEAD"
 if ! git -C $V apply --check $OUT/patch.diff 2>$OUT/apply.err; then res "apply=FAILED"; exit 1; fi
 git -C $V apply $OUT/patch.diff; res "apply=ok"
-# untracked demo files in the seed worktree (outside SEED/ and target/)
-DEMOS=$(git -C $SW status --porcelain --untracked-files=all | awk '$1=="??"{print $2}' | grep -v '^SEED/' | grep -v '^target/' | grep -v '^\.verif')
-res "demo_files=$(echo $DEMOS | tr '\n' ' ')"
-export CARGO_TARGET_DIR=$V/target
+res "patch_files=$(git -C $V diff --name-only | tr '\n' ' ')"
+res "demo_files=$(cd $OUT/demo_tree && find . -type f | sed 's#^\./##' | tr '\n' ' ')"
+export CARGO_TARGET_DIR=$V/target CARGO_PROFILE_DEV_DEBUG=0 CARGO_PROFILE_TEST_DEBUG=0 CARGO_INCREMENTAL=0
 # 2. baseline with patch (no demo)
-( cd $V && cargo nextest run --workspace --no-fail-fast --tool-config-file pb:/w/lib/nextest.toml --profile pb --test-threads 8 --offline ) > $OUT/baseline_with_patch.log 2>&1
-SUM=$(grep -E "^\s+Summary" $OUT/baseline_with_patch.log | tail -1)
-res "baseline_with_patch: $SUM"
-FAILS=$(grep -E "^\s+FAIL " $OUT/baseline_with_patch.log | sed -E 's/.*\) //' | sort -u | grep -v "echo-wesley-gen::generation" | grep -v "inverse_intent_resolves_one_admitted_transition_after_restart")
-res "unexpected_failures=$(echo $FAILS | tr '\n' ' ')"
+if [ -z "${SEED_SKIP_BASELINE:-}" ]; then
+  ( cd $V && cargo nextest run --workspace --no-fail-fast --tool-config-file pb:/w/lib/nextest.toml --profile pb --test-threads 8 --offline ) > $OUT/baseline_with_patch.log 2>&1
+  SUM=$(grep -E "^\s+Summary" $OUT/baseline_with_patch.log | tail -1)
+  res "baseline_with_patch: $SUM"
+  FAILS=$(grep -E "^\s+(FAIL|SIGABRT|SIGSEGV|TIMEOUT|LEAK-FAIL) " $OUT/baseline_with_patch.log | sed -E 's/.*\) +//' | sort -u | grep -v "echo-wesley-gen::generation" | grep -v "inverse_intent_resolves_one_admitted_transition_after_restart")
+  res "unexpected_failures=$(echo $FAILS | tr '\n' ' ')"
+  # keep the log small: summary + failures only
+  grep -E "Summary|FAIL|SIGABRT|SIGSEGV|TIMEOUT|error" $OUT/baseline_with_patch.log | head -100 > $OUT/baseline_with_patch.short.log; rm -f $OUT/baseline_with_patch.log
+fi
 # 3. demo with patch / without patch
-for f in $DEMOS; do mkdir -p $V/$(dirname $f); cp $SW/$f $V/$f; done
-DEMO_CMD=$(python3 -c "import json;print(json.load(open('$OUT/meta.json')).get('demo_cmd',''))" 2>/dev/null | sed "s#$SW#$V#g")
+(cd $OUT/demo_tree && find . -type f | sed 's#^\./##') | while read -r f; do mkdir -p $V/$(dirname $f); cp $OUT/demo_tree/$f $V/$f; done
+DEMO_CMD=$(python3 -c "import json;print(json.load(open('$OUT/meta.json')).get('demo_cmd',''))" 2>/dev/null | sed "s#$ORIG_SW#$V#g")
 res "demo_cmd=$DEMO_CMD"
 if [ -n "$DEMO_CMD" ]; then
   ( cd $V && eval "$DEMO_CMD" ) > $OUT/demo_with_patch.log 2>&1; res "demo_with_patch_exit=$?"
   git -C $V apply -R $OUT/patch.diff
   ( cd $V && eval "$DEMO_CMD" ) > $OUT/demo_without_patch.log 2>&1; res "demo_without_patch_exit=$?"
   git -C $V apply $OUT/patch.diff
+  for l in demo_with_patch demo_without_patch; do tail -c 6000 $OUT/$l.log > $OUT/$l.tail.log; rm -f $OUT/$l.log; done
 fi
-for f in $DEMOS; do rm -f $V/$f; done
-unset CARGO_TARGET_DIR
+(cd $OUT/demo_tree && find . -type f | sed 's#^\./##') | while read -r f; do rm -f $V/$f; done
+unset CARGO_TARGET_DIR CARGO_PROFILE_DEV_DEBUG CARGO_PROFILE_TEST_DEBUG CARGO_INCREMENTAL
 # 4. our checks against the patched tree
 for c in ${CHECKS//,/ }; do
-  /verif/tools/mutant_run.sh $V $c quick > $OUT/check_$c.log 2>&1; code=$?
-  sig=$(grep -m4 "violation x" $OUT/check_$c.log | tr '\n' ' ' | cut -c1-400)
+  /verif/tools/mutant_run.sh $V $c quick > $OUT/check_$c.full.log 2>&1; code=$?
+  sig=$(grep -m6 "violation x" $OUT/check_$c.full.log | tr '\n' ' ' | cut -c1-600)
   res "check $c exit=$code $sig"
+  grep -E "violation x|VIOLATION|MACHINERY|KNOWN-FINDING|tier=|error" $OUT/check_$c.full.log | cut -c1-400 | head -60 > $OUT/check_$c.log; rm -f $OUT/check_$c.full.log
 done
 git -C $V checkout -q -- .
 res "DONE"
